@@ -100,6 +100,24 @@ def generate(g, tier):
         for cx in CTX:
             if cx.startswith('$ENTER') and e in ('10^400', '10.0^400'): continue      # the D19 probe below covers huge counts
             cases.append(dict(op='compile', src=dict(text=cx.format(e)), meta=dict(family='edge')))
+    # the START family with every kind of argument, inside a real file (so that the path is resolved), and comma lists that
+    # are stored, extended, nested and compared
+    for kw in ('START', 'STARTENV', 'STARTCODE', '$START'):
+        for a in ['/', './', '//', '.', '..', '...', 'a/', '""', '" "', 'a.', '.a', 'a..b', 'x' * 300, 'a/b', '~', 'a b', '-', 'lib', 'lib.', '.lib', 'LIB', 'lib.txt', '"lib"', '"l"+"ib"',
+                  'p.lib', '..p.lib', 'main', '\u65e5', '1', '0-1', 'TRUE', '(', ',', '1,2', 'lib lib', '\t', '\\', 'con', 'a' * 60 + '.' + 'b' * 60]:
+            files = {'p/main.txt': f'{kw} {a}\nSTRING after', 'p/lib.txt': 'STRING lib'}
+            cases.append(dict(op='compile_file', file='p/main.txt', files=files, meta=dict(family='start-args', nocorr=True)))
+    for t in ['VAR a 1,2\nVAR a a,a\n$STRING a', 'VAR a 1,2\nVAR a a,a\n$STRING a==a', 'VAR a 1,2\nVAR b a,3\n$STRING a==b', 'VAR a 1,2\nVAR a a,a\nIF a\n    STRING x',
+              'VAR a 1,2\nREPEAT 5\n    VAR a a,a\n$STRING a', 'VAR a 1,2\nFUNC f p,q\n    $STRING p\nRUN f a,a', '$STRING (1,2),(1,2)', 'VAR a (1,2)\nVAR a a,a,a\n$PRINT a']:
+        cases.append(dict(op='compile', src=dict(text=t), meta=dict(family='lists', nocorr=True)))
+    # several stacks of one compilation that end through a top-level BREAKLOOP / CONTINUE / RETURN (the importer and imported
+    # files, the same file twice, a file started in a loop)
+    for sig in ('BREAKLOOP', 'BREAK_LOOP', 'CONTINUE', 'CONTINUELOOP', 'RETURN'):
+        for sig2 in ('BREAKLOOP', 'CONTINUE', 'RETURN'):
+            for shape in range(4):
+                lib = f'STRING lib\n{sig}'
+                main = [f'START lib\n{sig2}', f'START lib\nSTARTENV lib\nSTARTCODE lib\n{sig2}', f'REPEAT 2\n    START lib\n{sig2}', f'FUNC f\n    START lib\nRUN f\nRUN f\n{sig2}'][shape]
+                cases.append(dict(op='compile_file', file='p/main.txt', files={'p/main.txt': main, 'p/lib.txt': lib}, meta=dict(family='exit-signals')))
     # runaway recursion and the deepest legal chains at the largest stack limits the CLI accepts: the stack limit must answer
     # before the host stack does (StackOverflowError, never RecursionError)
     for L in (150, 180, 200):
